@@ -613,8 +613,12 @@ class World:
             if spec['lease'] and not now + spec['lease'] + 5.0 < srv.valid_until:
                 continue
             used = [0.0, 0.0, 0.0]
-            for aname in srv.apps:
+            for aname, aobj in srv.apps.items():
                 dem = truth.demand_of(aname)
+                if dem is None:
+                    # an instance the harness no longer knows (only possible
+                    # when the code under test lost track of it)
+                    dem = [float(x) for x in aobj.demand]
                 for d in range(3):
                     used[d] += dem[d]
             free = [st['cap'][d] - used[d] for d in range(3)]
